@@ -298,6 +298,12 @@ static cJSON_bool decode_array_index_from_pointer(const unsigned char * const po
         return 0;
     }
 
+    if (position == 0)
+    {
+        /* an empty token is not an array index */
+        return 0;
+    }
+
     *index = parsed_index;
 
     return 1;
